@@ -17,7 +17,7 @@ RULE = (
     "expected text built from the reference FORWARD neighbour lists: lines in universe order (or sorted by the "
     "key), each `r(v) + ' -> ' + ', '.join(r(n))` with neighbours in neighbors() order (stable-sorted by the key "
     "when given); for a vertex without neighbours both 'x -> ' and 'x ->' are accepted; empty universe => None.  "
-    "Every case renders twice: after the first call the rendering attributes change, one member leaves and one joins, and rfunc is switched; the second text must reflect the new state only.  Non-trivial = >= 1 member without neighbours and >= 1 member with >= 2 neighbours; distinct = distinct case value."
+    "Every case renders twice: after the first call the rendering attributes change, one member leaves and one joins, and rfunc is either switched or the very same rfunc / sort function objects are passed again; the second text must reflect the new state only.  Non-trivial = >= 1 member without neighbours and >= 1 member with >= 2 neighbours; distinct = distinct case value."
 )
 ASSUMPTIONS = [
     "only directed/undirected-family links (basic_render uses neighbors() defaults)",
@@ -40,6 +40,26 @@ def strategy(tier):
     return render.cases(classes=4)
 
 
+_FMT = ["t%d"]
+
+
+def _TITLE(v):
+    """A persistent rfunc object; what it returns follows the vertex's CURRENT attribute."""
+    return _FMT[0] % v.i
+
+
+def _KEY_I(v):
+    return v.i
+
+
+def _KEY_NEG(v):
+    return -v.i
+
+
+def _KEY_PARITY(v):
+    return v.i % 2
+
+
 def check_case(case):
     vs, ls, u = render.build(case)
     info = _check_render(case, vs, ls, u, 0)
@@ -55,13 +75,15 @@ def _check_render(case, vs, ls, u, phase):
     from edgegraph.output import plaintext
 
     G = graphs.abstract(vs, ls)
-    use_r = bool(case["opt"] & 1) if phase == 0 else not bool(case["opt"] & 32)
+    use_r = bool(case["opt"] & 1) if (phase == 0 or case["opt"] & 16) else not bool(case["opt"] & 32)
     sortsel = (case["opt"] >> 1) % 4
     # renderings may end in the characters of the separator (a comma, a blank): nothing of them may be lost
-    fmt = ["t%d", "t%d,", "t%d ", " ,t%d, ", "%d->", "t%d", "t%d", "t%d"][(case["extra"] + 3 * phase) % 8]
-    title = lambda v: fmt % v.i
+    same = bool(case["opt"] & 16)     # the second rendering reuses the very same rfunc / sort OBJECTS
+    fmt = ["t%d", "t%d,", "t%d ", " ,t%d, ", "%d->", "t%d", "t%d", "t%d"][(case["extra"] + (0 if same else 3 * phase)) % 8]
+    _FMT[0] = fmt
+    title = _TITLE if same else (lambda v: fmt % v.i)
     r = title if use_r else repr
-    keys = [None, lambda v: v.i, lambda v: -v.i, lambda v: v.i % 2][sortsel]
+    keys = [None, _KEY_I, _KEY_NEG, _KEY_PARITY][sortsel]
     try:
         txt = plaintext.basic_render(u, rfunc=title if use_r else None, sort=keys)
     except Exception as e:  # noqa
